@@ -50,6 +50,16 @@ def run(pid, tier_, replay=None):
             if not got:
                 print("replay: no violation of %s reproduced on the split case" % pid)
             return 1 if got else 0
+        if isinstance(obj, dict) and "repo_test" in obj:
+            import bp_repotests
+            rr = bp_repotests.run(only={obj["repo_test"]})
+            got = [v for v in rr["violations"] if v[0] == pid]
+            for prop, clause, t, seq in got[:5]:
+                print("VIOLATION property=%s replay=%s" % (pid, replay))
+                print("  what: %s at hook event %d of the repository's own test %s (go test -tags verif -run '^%s$')" % (clause, seq, t, t))
+            if not got:
+                print("replay: no violation of %s reproduced on %s (%d hook events judged)" % (pid, obj["repo_test"], rr["events"]))
+            return 1 if got else 0
         scs = [obj["scenario"]] if "scenario" in obj else (obj if isinstance(obj, list) else [obj])
         binp = bp.build_harness(race=False)
         trace, hn = bp.run_harness(binp, scs)
@@ -69,6 +79,12 @@ def run(pid, tier_, replay=None):
         props, spec = bp.mc_props(pid, name)
         mc_futs.append(pool.submit(bp.mc, name, cst, bp.ALL_INVS, props, spec, 5 if quick else 8,
                                    600 if quick else 3000))
+
+    # 1b. the repository's own tests, built with the verif tag, judged at the hook level (BPHookObs.tla)
+    rt_fut = None
+    if pid in ("C05", "C06", "C09", "C11"):
+        import bp_repotests
+        rt_fut = pool.submit(bp_repotests.run)
 
     # 2. behaviours: TLC simulation of BPSim + seeded generator + fixed regression scenarios
     nsim_cfg, nsim = (4, 60) if quick else (16, 400)
@@ -144,6 +160,16 @@ def run(pid, tier_, replay=None):
         found.append(dict(signature=sig, what="%s: %s violated in scenario %s at event %d" % (pid, clause, sc["id"], seq),
                           replay=dict(property=pid, clause=clause, scenario=sc, event_seq=seq,
                                       events=bp.scenario_events(merged, tr)[:400])))
+    rt = rt_fut.result() if rt_fut else None
+    if rt:
+        seen_rt = set()
+        for prop, clause, t, seq in rt["violations"]:
+            if prop != pid or (clause, t) in seen_rt:
+                continue
+            seen_rt.add((clause, t))
+            found.append(dict(signature="%s repo-test %s" % (clause, t),
+                              what="%s: %s at hook event %d of the repository's own test %s" % (pid, clause, seq, t),
+                              replay=dict(property=pid, clause=clause, repo_test=t, event_seq=seq)))
     if split:
         for n_, prop, clause, case in split["violations"]:
             if prop != pid:
@@ -193,6 +219,10 @@ def run(pid, tier_, replay=None):
         tlc_behaviours_replayed=nbeh, seeded_scenarios=nrand, events_judged=nev, scenario_features=agg,
         harness_aborts=notes[:5], model_issues=model_issues, exhaustive=False, level_effective=level_effective,
     )
+    if rt:
+        cov["repo_tests"] = dict(spec="BPHookObs.tla", tests_run=rt["tests"], hook_events_judged=rt["events"], failed_tests=rt["failed_tests"][:10],
+                                 accounting_drift=len(rt["drift"]), drift_samples=rt["drift"][:3])
+        cov["traces_validated_against_impl"] += rt["tests"] - len({d_[2] for d_ in rt["drift"]})
     if split:
         cov["split"] = dict(spec="Split.tla / SplitObs.tla", spec_states=split["states"], cases=split["cases"], real_runs=split["runs"],
                             conformance_drift=len(split["drift"]), samples=split["samples"][:2], exhaustive_within_bounds=True)
@@ -210,6 +240,11 @@ def run(pid, tier_, replay=None):
               % (json.dumps(rj["rejected_event"]), all_sc[rj["rejected_tr"] - 1]["id"], ",".join(rj["context"][-3:])))
     if split and split["drift"]:
         print("DRIFT (not a verdict): %d split cases where the real fragments differ from Split.tla's, e.g. %s" % (len(split["drift"]), json.dumps(split["drift"][0])))
+    if rt:
+        for d_ in rt["drift"][:3]:
+            print("DRIFT (not a verdict): hook accounting %s at event %d of the repository's test %s" % (d_[1], d_[3], d_[2]))
+        if rt["failed_tests"]:
+            print("NOTE: %d of the repository's tests fail when run one by one with the verif tag: %s" % (len(rt["failed_tests"]), rt["failed_tests"][:5]))
     for er in conf["errors"][:2]:
         print("DRIFT (not a verdict): BPTrace run failed: %s" % er[-400:].replace("\n", " | "))
     for mi in model_issues:
